@@ -44,7 +44,8 @@ def scenarios(tier: str) -> List[Dict[str, Any]]:
     out: List[Dict[str, Any]] = []
     # TPTT: the static target (first/last letter) occurs three times and res1 sits on a residue no static rule targets, so
     # the per-occurrence lists a rule expands into are independent only if the library copies them
-    seqs = ["PEP", "KCMK", "TPTT"] if tier == "quick" else ["PEP", "KCMK", "TPTT", "SUNDS", "WHKRFW"]
+    # since session 5 the quick tier runs what used to be the thorough scope (seconds); thorough adds longer peptides
+    seqs = ["PEP", "KCMK", "TPTT", "SUNDS", "WHKRFW"] + (["ACDEFGHIA", "LMNOPQRSTVYL"] if tier == "thorough" else [])
     slots = ["labile", "unknown", "nterm", "cterm", "res0", "res1", "resL", "interval", "staticAA", "staticN", "staticC", "static2"]
     kinds = list(PALETTE)
     charges = [None, -3, -1, 0, 1, 2, 4]
@@ -58,7 +59,7 @@ def scenarios(tier: str) -> List[Dict[str, Any]]:
                 for mult in (1, 2, 3):
                     if slot.startswith("static") and mult != 1:
                         continue
-                    if tier == "quick" and mult == 3 and kind not in ("num", "formula"):
+                    if False:
                         continue
                     for mono in (True, False):
                         sc = {"seq": seq, "mods": [[slot, kind, mult]], "mono": mono,
@@ -71,7 +72,7 @@ def scenarios(tier: str) -> List[Dict[str, Any]]:
         # pairs of slots (kinds rotated) and everything at once
         import itertools
         for (s1, s2) in itertools.combinations(slots, 2):
-            for r in range(2 if tier == "quick" else 5):
+            for r in range(5):
                 for mono in (True, False):
                     sc = {"seq": seq, "mods": [[s1, kinds[(k + r) % len(kinds)], 1 + k % 3 if not s1.startswith("static") else 1],
                                                [s2, kinds[(k * 3 + r + 1) % len(kinds)], 1 + (k + 1) % 3 if not s2.startswith("static") else 1]],
@@ -468,7 +469,7 @@ def run(tier: str, seed: int, only=None) -> Report:
                     "chem_constants' own source on those symbols, so both calculators become polynomials in the same variables and z3 "
                     "decides whether they can differ by more than the tolerance for any atomic masses and any numeric modification value.",
         functions=FUNCS,
-        bounds="sequences PEP, KCMK, TPTT (quick; repeated letters so static rules count 2 and 3) + 2 longer (thorough); 12 modification slots x 14 spellings (numeric, Formula incl. isotopes, "
+        bounds="sequences PEP, KCMK, TPTT (repeated letters so static rules count 2 and 3), SUNDS, WHKRFW (quick) + ACDEFGHIA, LMNOPQRSTVYL (thorough); 12 modification slots x 14 spellings (numeric, Formula incl. isotopes, "
                "Unimod name/accession/prefix, Glycan, '|' alternatives, '#' tags, Obs, signed and prefixed deltas) singly, in pairs and all "
                "at once; multipliers 1..3; all 18 ion types; charge None,-3..4 in argument or annotation; isotope 0..3; nine adduct "
                "lists; labels 13C,15N,18O,D,T and a pair; use_isotope_on_mods; mono/avg",
